@@ -402,6 +402,8 @@ def run(tier, seed, model):
                         break
         if not camp.oracle_failures:
             whole_tool(camp, rng, 60 if tier == "quick" else 1500)
+        if not camp.oracle_failures:
+            delay_sources(camp, rng)
     finally:
         shutil.rmtree(tmp, ignore_errors=True)
     camp.rule = ("random scripts of 1..13 commands (key incl. chords, type, move, click, mdown, mup, drag, pause/sleep, capture, expect) "
@@ -508,6 +510,33 @@ def whole_tool(camp, rng, n):
                 return
     finally:
         command.factory_connect = saved_connect
+
+
+def delay_sources(camp, rng):
+    """which delay is configured: --delay on the command line wins over $VNCDOTOOL_DELAY, which wins over the built-in
+    10 ms; --warp is what was written - through the real option parser of vncdo() (cliopts.run_vncdo)"""
+    import cliopts
+    for _ in range(12):
+        cli = rng.choice([None, 0, 25, 400])
+        env = rng.choice([None, "0", "7", "250"])
+        warp = rng.choice([None, "0.5", "2", "4.0"])
+        argv = (["--delay", str(cli)] if cli is not None else []) + (["--warp", warp] if warp else []) + ["key", "a", "key", "b"]
+        g = cliopts.run_vncdo(argv, {"VNCDOTOOL_DELAY": env} if env is not None else {})
+        want = cli if cli is not None else int(env) if env is not None else 10
+        camp.evaluations += 1
+        camp.count("delay-sources")
+        camp.nontrivial.add(("delay-source", cli, env, warp))
+        why = None
+        if g["options"] is None:
+            why = f"vncdo did not get as far as build_tool (exit {g['exit']}, raised {g['raised']!r})"
+        elif g["options"].delay != want:
+            why = f"the delay handed to build_tool is {g['options'].delay!r} ms, configured are {want} ms"
+        elif float(g["options"].warp) != float(warp or 1.0):
+            why = f"the warp factor handed to build_tool is {g['options'].warp!r}"
+        if why:
+            camp.oracle_failures.append({"kind": "oracle", "property": "C08", "case": {"whole_tool": argv, "env": env},
+                                         "what": f"{'VNCDOTOOL_DELAY=' + env + ' ' if env is not None else ''}vncdo {' '.join(argv)}: {why}"})
+            return
 
 
 def _is_utf8(b):
